@@ -192,10 +192,16 @@ def Eqn.build : Eqn → List Item
 /-- `Equation.Filter` -/
 def Eqn.filter (e : Eqn) : Frag := .filter e.build
 
-/-- `Equation.Script`: a bare path becomes `path exists true`. DEVIATION (C14-bare-path): only the
-parser's form `{result: Expr}`, not `Get(path)` (`un get …`), which builds the same template otherwise -/
+/-- `Equation.Script`: a bare path — parsed, or built with `Get` (since fe63c88) — becomes
+`path exists true` -/
 def Eqn.script : Eqn → List Item
   | .val (.expr x) => Eqn.build (.bin Gen.JpOps.op_exists (.val (.expr x)) (.val (.bool true)))
+  | .un o (.val (.expr x)) =>
+    if isCode o Gen.JpOps.op_get then Eqn.build (.bin Gen.JpOps.op_exists (.val (.expr x)) (.val (.bool true)))
+    else Eqn.build (.un o (.val (.expr x)))
+  | .bin o (.val (.expr x)) r =>
+    if isCode o Gen.JpOps.op_get then Eqn.build (.bin Gen.JpOps.op_exists (.val (.expr x)) (.val (.bool true)))
+    else Eqn.build (.bin o (.val (.expr x)) r)
   | e => e.build
 
 end OjgVerif.JPText
